@@ -154,6 +154,15 @@ def run_property(pid, tier='quick', replay=None, quiet=False):
     prog = front.Program()
 
     partial = [None]
+    known, fixed = load_known()
+
+    def listed(o):
+        e = known.get(o.ident(pid))
+        if e is None:
+            return False
+        # a listed finding suppresses exactly the failure it describes: same obligation and, where the
+        # rule provides one, the same fingerprint of the failing construct
+        return e.get('fingerprint') is None or o.fp is None or e.get('fingerprint') == o.fp
 
     def attempt(inline):
         INLINE_MODE[0] = inline
@@ -166,9 +175,11 @@ def run_property(pid, tier='quick', replay=None, quiet=False):
                 raise AnalysisError('no obligations generated')
             return c, None
         except AnalysisError as e:
-            if any(not o.ok for o in c.obs):
+            if not inline and any(not o.ok and not listed(o) for o in c.obs):
                 # a later rule could not be evaluated, but obligations decided before it are violated: those stand (a violation does
-                # not become undecided because something else is); the rest of the property is reported as not analysed
+                # not become undecided because something else is); the rest of the property is reported as not analysed.  Failures that
+                # are listed known findings do not count here: with only those, a stopped analysis is an analysis error.  (Only on the
+                # source as written: the normal form is a second chance to discharge obligations, never a source of violations.)
                 c.notes.append('the analysis stopped early (%s): obligations after that point were not evaluated' % e)
                 return c, None
             partial[0] = c
@@ -196,15 +207,7 @@ def run_property(pid, tier='quick', replay=None, quiet=False):
         print(err)
         return 2
 
-    known, fixed = load_known()
     failed = [o for o in ctx.obs if not o.ok]
-    def listed(o):
-        e = known.get(o.ident(pid))
-        if e is None:
-            return False
-        # a listed finding suppresses exactly the failure it describes: same obligation and, where the
-        # rule provides one, the same fingerprint of the failing construct
-        return e.get('fingerprint') is None or o.fp is None or e.get('fingerprint') == o.fp
     viol = [o for o in failed if not listed(o)]
     kf = [o for o in failed if listed(o)]
     if replay:
